@@ -1317,6 +1317,7 @@ int ov_raw_seek(OggVorbis_File *vf,ogg_int64_t pos){
     int thisblock=0;
     int lastflag=0;
     int firstflag=0;
+    int submitted=0; /* pages of the current link queued by this call */
     ogg_int64_t pagepos=-1;
 
     ogg_stream_init(&work_os,vf->current_serialno); /* get the memory ready */
@@ -1420,11 +1421,20 @@ int ov_raw_seek(OggVorbis_File *vf,ogg_int64_t pos){
         ogg_stream_reset_serialno(&vf->os,serialno);
         ogg_stream_reset_serialno(&work_os,serialno);
         vf->ready_state=STREAMSET;
+        submitted=0;
       }
 
       /* is this the first audio page of the link?  This must be known
-         even when the link was already set up on entry */
+         even when the link was already set up on entry.  In a
+         multiplexed link, pages of other streams may lie between the
+         end of the headers and the first audio page: when the scan
+         began at or before the data offset, the first page of the link
+         that turns up is its first audio page wherever it lies */
       if(pagepos<=vf->dataoffsets[vf->current_link])firstflag=1;
+      if(ogg_page_serialno(&og)==vf->current_serialno){
+        if(pos<=vf->dataoffsets[vf->current_link] && !submitted)firstflag=1;
+        submitted++;
+      }
 
       ogg_stream_pagein(&vf->os,&og);
       ogg_stream_pagein(&work_os,&og);
